@@ -90,6 +90,15 @@ check('C16',
       'Token texts of corpus programs come from an independent regex splitter; `not`, `breakpoint`, built-in names outside the identifier alphabet; one open known finding (backslash before closing quote).',
       'DESIGN.md C16')
 
+check('C17',
+      'explicit-state BFS over compile histories on one Parser (differential oracle vs fresh Parser); exhaustive stop-point enumeration of re-runs; ordered job pairs',
+      '(a) every history of compile requests over 14 texts on one Parser, canonical parser state de-duplicated, to a fixpoint or depth 3 (thorough 4): '
+      'result, error text and listing equal a fresh Parser\'s; (b) for each program of K/V/X slices (stride 9 quick, all thorough): two complete runs and, for '
+      'EVERY instruction index k, a run stopped at k followed by a complete run, all equal to the first trace, listing unchanged; (c) every ordered '
+      'pair of 12 state-dirtying jobs: second job equals its solo trace.',
+      'Recording clock/output; device state reset between jobs of a pair; canonical parser state = all Parser/Context/CodeGen fields not reset by parse().',
+      'DESIGN.md C17')
+
 NOT_YET = 'check not built yet in this session (design in DESIGN.md); will be claimed when its command exists'
 
 
